@@ -72,6 +72,9 @@ Verdict(e) ==
   ELSE IF ~AffDef(e) THEN R("AdjDef", "visibility_relations(affine)", e)
   ELSE IF ~AffineInv(e) THEN R("AffineInv", "adjacency", e)
   ELSE IF ~TimeReversal(e) THEN R("TimeReversal", "adjacency", e)
+  ELSE IF e.obs.m2 # e.obs.m \/ e.rev.m2 # e.rev.m \/ e.affobs.m2 # e.affobs.m
+       THEN R("Repeatable", JoinSet({nm \in DOMAIN e.obs.m : e.obs.m2[nm] # e.obs.m[nm] \/ e.rev.m2[nm] # e.rev.m[nm]
+                                                              \/ e.affobs.m2[nm] # e.affobs.m[nm]}), e)
   ELSE IF ~(DegSplit(e.obs) /\ DegSplit(e.rev)) THEN R("DegSplit", "retarded/advanced_degree", e)
   ELSE IF ~(ClustDef(e.obs) /\ ClustDef(e.rev)) THEN R("ClustDef", "retarded/advanced_local_clustering", e)
   ELSE IF ~Exchange(e) THEN R("Exchange", "retarded<->advanced", e)
